@@ -327,3 +327,7 @@ def units(tier):
 
 def selftest():
     return stats.selftest()
+
+
+# dimensions added after the fourth and fifth round of seeded changes (DESIGN.md 8.3, 8.4); part of the rule reported in the evidence
+RULE += ' Added with the fourth and fifth round of seeded changes: class lists with negative values; a first sample that is zero for every trace; arrays returned by earlier computes kept and compared at the end.'
